@@ -133,6 +133,21 @@ def run_table(GE, ids, rows, index_keyed, counters, violations, nontrivial, colp
     violations.append({'clause': 'query', 'mech': 'elig-query-raises', 'detail': '%s default query: %s' % (where, res.describe())})
   else:
     check_assignment(res.value, sids, rowmap, violations, where + ' geos=None')
+    # the caller edits the answer it got; the next default answer must still describe the table
+    try:
+      res.value.all.add('not-a-geo')
+      res.value.c.clear()
+      res.value.ctx = set()
+    except Exception:  # pylint: disable=broad-except
+      pass
+    res2 = util.call(ge.get_eligible_assignments)
+    counters['subset_queries'] += 1
+    counters['answers_edited'] += 1
+    if res2.ok:
+      nb = len(violations)
+      check_assignment(res2.value, sids, rowmap, violations, where + ' geos=None (after the caller edited the previous answer)')
+      for v in violations[nb:]:
+        v['mech'] = 'elig-answer-aliasing'
   for sub in ordered_subsets(sids):
     if len(violations) > 10:
       return
